@@ -3,7 +3,7 @@
    (the theorems of C19/Props.v are about single-message transactions); the statement below is evaluated on what
    the implementation was observed to do. Executable definitions only. *)
 From Coq Require Import List String Bool ZArith.
-From Exo Require Import Base.IntDec Base.Util C19.Model.
+From Exo Require Import Base.IntDec Base.Util C19.Model C19.MultiTx.
 Import ListNotations.
 Local Open Scope Z_scope.
 
@@ -23,7 +23,10 @@ Record mcase := mkMCase {
   m_coll0 : Z; m_coll1 : Z;
   m_world0 : string; m_world1 : string;
   m_supply0 : Z; m_supply1 : Z;
-  m_creates : list bool           (* per message: contract creation *)
+  m_creates : list bool;          (* per message: contract creation *)
+  m_oracles : list oracle;        (* per message: what the interpreter reported (measured on a discarded branch) *)
+  m_bgas0 : Z; m_bgas1 : Z;       (* block gas meter *)
+  m_ctxgas : Z                    (* ResponseDeliverTx.GasUsed *)
 }.
 
 Definition msg_g (m : mmsg) : Z := match snd m with Some (g, _) => g | None => t_gas (fst m) end.
@@ -116,3 +119,61 @@ Definition mnonce_case (c : mcase) : option nat :=
         | None => Some 0%nat
         end
   end.
+
+(* ---- correspondence with the transition model of C19/MultiTx.v ---- *)
+Definition minit (c : mcase) : state :=
+  mkSt (map (fun ao => (ao_addr ao, ao_bal0 ao)) (m_accts c))
+       (map (fun ao => (ao_addr ao, ao_nonce0 ao)) (m_accts c))
+       (m_coll0 c) (m_bgas0 c) (m_world0 c).
+
+Definition out_eqb (a b : Z * bool) : bool := (fst a =? fst b) && Bool.eqb (snd a) (snd b).
+
+Definition mcheck_case (c : mcase) : option nat :=
+  let ops := combine (map fst (m_msgs c)) (m_oracles c) in
+  if negb (Nat.eqb (List.length (m_msgs c)) (List.length (m_oracles c))) then Some 0%nat
+  else
+    let '(s', r) := deliver_multi (m_env c) (minit c) (m_ctxgas c) ops in
+    let ok :=
+      Bool.eqb (match r with MDone _ => true | _ => false end) (m_code_ok c) &&
+      (match r with
+       | MDone outs => list_eqb (option_eqb out_eqb) (map (@Some _) outs) (map snd (m_msgs c))
+       | _ => forallb (fun m => match snd m with None => true | Some _ => false end) (m_msgs c)
+       end) &&
+      forallb (fun ao =>
+                 (aget 0 (s_bal s') (ao_addr ao) =? ao_bal1 ao) &&
+                 (* sequences: senders and already existing accounts; an address without account that is not a sender
+                    may get one as a side effect (fresh recipient, created contract), which the model does not track *)
+                 (match ao_nonce0 ao with
+                  | Some _ => optz_eqb (aget None (s_nonce s') (ao_addr ao)) (ao_nonce1 ao)
+                  | None => if count_from (ao_addr ao) (m_msgs c) =? 0 then true
+                            else optz_eqb (aget None (s_nonce s') (ao_addr ao)) (ao_nonce1 ao)
+                  end)) (m_accts c) &&
+      (s_coll s' =? m_coll1 c) && (s_bgas s' =? m_bgas1 c) && String.eqb (s_world s') (m_world1 c)
+    in if ok then None else Some 1%nat.
+
+(* ---- the single-message model (Model.deliver) and the multi-message model on a one-element list ----
+   evaluated on every transaction of suite evmfee: same result class, same charged gas, same state *)
+Definition single_agrees (e : env) (s : state) (t : tx) (o : oracle) : bool :=
+  let '(s1, r1) := deliver e s t o in
+  let '(s2, r2) := deliver_multi e s (o_ctxgas o) [(t, o)] in
+  (s_coll s1 =? s_coll s2) && (s_bgas s1 =? s_bgas s2) && String.eqb (s_world s1) (s_world s2) &&
+  (aget 0 (s_bal s1) (t_from t) =? aget 0 (s_bal s2) (t_from t)) &&
+  (aget 0 (s_bal s1) (t_to t) =? aget 0 (s_bal s2) (t_to t)) &&
+  optz_eqb (aget None (s_nonce s1) (t_from t)) (aget None (s_nonce s2) (t_from t)) &&
+  match r1, r2 with
+  | Rejected a, MRejected b => a =? b
+  | MsgErr, MMsgErr => true
+  | BlockGasExceeded g f, MBlockGasExceeded [(g', f')] => (g =? g') && Bool.eqb f f'
+  | Done g f, MDone [(g', f')] => (g =? g') && Bool.eqb f f'
+  | RefundFail, MMsgErr => true
+  | _, _ => false
+  end.
+
+Fixpoint agree_txs (e : env) (s : state) (l : list (tx * oracle * obs)) (i : nat) : option nat :=
+  match l with
+  | [] => None
+  | (t, o, _) :: r =>
+      if single_agrees e s t o then agree_txs e (fst (deliver e s t o)) r (S i) else Some i
+  end.
+
+Definition agree_case (c : case) : option nat := agree_txs (c_env c) (init_state c) (c_txs c) 0.
